@@ -113,6 +113,18 @@ def main():
   for i, scn in enumerate(rand):
     key = synth.scn_key({k: scn[k] for k in ("subs", "mode", "inmode", "outmode")})
     items.append(dict(scn=scn, dump=rdumps.get(key), seed=args.seed + i, interp=spec["interp"], tag="random"))
+  # ---- the repository's fixture models x the recipe files, with the specification run on the extracted scenario
+  fitems = pipecheck.fixture_items(spec["interp"])
+  if fitems:
+    rx, fdumps = pipecheck.design_run_from("%s_fixtures" % prop, [it["scn"] for it in fitems], spec["inv"], timeout=3600)
+    states += rx.distinct
+    trans += rx.generated
+    if rx.error or rx.rc not in (0, 12):
+      chk.machinery("TLC failed on the fixture scenarios: %s" % rx.out[-600:])
+    per_cfg["fixtures_from"] = {"states": rx.distinct, "transitions": rx.generated, "terminal_scenarios": len(fdumps), "wall_s": round(rx.wall, 1)}
+    for it in fitems:
+      it["dump"] = fdumps.get(synth.scn_key({k: it["scn"][k] for k in ("subs", "mode", "inmode", "outmode")}))
+    items += fitems
   t0 = time.time()
   results = pipecheck.run_impl_many(items, args.procs)
   for it, r in zip(items, results):
@@ -135,7 +147,7 @@ def main():
     chk.note("spec-drift scenario %s: %s" % (r["key"], "; ".join(r["diffs"])[:300]))
   outcomes = {}
   for r in results:
-    k = "unrealisable" if r.get("unreal") is not None else "%s:%s:%s" % (r["tag"], r["outcome"], r["why"] if r["outcome"] == "raised" else "")
+    k = "unrealisable" if r.get("unreal") is not None else "%s:%s:%s" % (r["tag"].split(":")[0], r["outcome"], r["why"] if r["outcome"] == "raised" else "")
     outcomes[k] = outcomes.get(k, 0) + 1
   nt = sum(1 for r in results if r.get("unreal") is None and nontrivial(r["scn"]))
   returned = sum(1 for r in results if r["outcome"] == "done")
@@ -148,6 +160,7 @@ def main():
       "spec_to_code_exact_agreement": sum(1 for r in results if r.get("diffs") == []),
       "spec_drift": len(drift),
       "random_larger_graphs": sum(1 for r in results if r["tag"] == "random" and r.get("unreal") is None),
+      "fixture_model_x_recipe_pairs": sum(1 for r in results if r["tag"].startswith("fixture")),
       "terminal_scenarios_enumerated": len(all_dumps),
       "evaluations": len(results), "distinct_nontrivial": nt,
       "rule": "scenario = (float graph, mode per op, I/O modes); enumerated exhaustively by TLC within each config's bound, "
